@@ -68,6 +68,12 @@ TrBuild ==
   /\ e.op = "build" /\ Build(e.h, e.v)
   /\ Step({}, {"build"} \cup (IF WFAny({}, e.v) THEN {"wf_values"} ELSE {}), "-")
 TrSetBuf == /\ e.op = "setbuf" /\ SetBuf(e.h, e.bytes) /\ Step({}, {"setbuf"}, "-")
+\* the caller recombines packets it holds into a new list (no library call)
+TrPick ==
+  /\ e.op = "pick"
+  /\ pk' = [pk EXCEPT ![e.h] = IF pk[e.src].k = "LIST" THEN [k |-> "LIST", pkts |-> [i \in 1..Len(e.idx) |-> pk[e.src].pkts[e.idx[i]]]] ELSE None]
+  /\ memo' = [memo EXCEPT ![e.h] = NoMemo] /\ fromdec' = fromdec \ {e.h} /\ UNCHANGED << buf, prov, provdec >>
+  /\ Step({}, {"build"}, "-")
 TrReset ==
   /\ e.op = "reset"
   /\ pk' = [h \in H |-> None] /\ buf' = [h \in H |-> << >>] /\ prov' = [h \in H |-> None] /\ memo' = [h \in H |-> NoMemo]
@@ -240,7 +246,7 @@ TrUnitEnc ==
 
 TraceNext ==
   /\ l <= Len(Trace)
-  /\ \/ TrBuild \/ TrSetBuf \/ TrReset \/ TrMarshal \/ TrSize \/ TrDest \/ TrHeader \/ TrString
+  /\ \/ TrBuild \/ TrSetBuf \/ TrPick \/ TrReset \/ TrMarshal \/ TrSize \/ TrDest \/ TrHeader \/ TrString
      \/ TrUnmarshal \/ TrDatagram \/ TrUnitDec \/ TrUnitEnc \/ TrValidate \/ TrCname \/ TrNack \/ TrRemb \/ TrTables \/ TrLen \/ TrMarshalTo
 
 TraceSpec == TraceInit /\ [][TraceNext]_tvars
